@@ -22,7 +22,7 @@ type Case struct {
 
 func (c *Case) ID() string { return fmt.Sprintf("%s[%s] fault=%s@%d", c.Wrapper, c.Nodes, c.Fault, c.At) }
 
-var wrappers = []string{"flat", "for", "if", "with", "autoescape", "ifchanged", "spaceless", "filter", "include", "include-lazy", "macro", "extends", "for-include", "ssi-parsed"}
+var wrappers = []string{"flat", "for", "if", "with", "autoescape", "ifchanged", "spaceless", "filter", "filter-length", "for-filter-length", "include", "include-lazy", "macro", "extends", "for-include", "ssi-parsed"}
 
 // build returns the file set, the name of the entry file and the expected fault-free output.
 func build(wrapper, nodes string) (files map[string]string, expected string, ticks int) {
@@ -74,6 +74,14 @@ func build(wrapper, nodes string) (files map[string]string, expected string, tic
 	case "filter":
 		files["/main"] = "{% filter upper %}" + b + "{% endfilter %}"
 		expected = strings.ToUpper(render())
+	case "filter-length":
+		// a filter whose output for a partial body is NOT a prefix of its output for the whole body
+		files["/main"] = "H{% filter length %}" + b + "{% endfilter %}T"
+		expected = "H" + fmt.Sprint(len(render())) + "T"
+	case "for-filter-length":
+		files["/main"] = "{% for i in two %}<{% filter length %}" + b + "{% endfilter %}>{% endfor %}"
+		expected = "<" + fmt.Sprint(len(render())) + ">"
+		expected += "<" + fmt.Sprint(len(render())) + ">"
 	case "include":
 		files["/main"] = "A{% include \"inc\" %}B"
 		files["/inc"] = b
